@@ -55,9 +55,9 @@ def main():
                           'bins': [[int(x), int(y)] for x, y in bins]})
 
         # count-table entry point on synthetic tagged BAMs
-        nb = 40 if tier == 'quick' else 1500
+        nb = 160 if tier == 'quick' else 2500
         tmp = tempfile.mkdtemp(prefix='c10_', dir=os.getcwd())
-        def make_bam(path, b, s, reflen, bintag, contigs, n):
+        def make_bam(path, b, s, reflen, bintag, contigs, n, extra=False, only=None):
             header = bamgen.make_header([(c, reflen) for c in sorted(set(contigs))])
             reads, desc = [], []
             for i in range(n):
@@ -69,11 +69,17 @@ def main():
                 sample = rng.choice(['cellA', 'cellB'])
                 pos = min(max(0, c - 2), reflen - 4)
                 paired = rng.random() < 0.3
+                tags = {'SM': sample, bintag: c} if rng.random() < 0.9 else {'SM': sample}
+                ft = rng.choice(['a', 'b'])
+                if extra:
+                    tags['ft'] = ft
                 reads.append(bamgen.make_read(header, 'r%d' % i, contig, pos, 'ACGT', paired=paired, read1=paired,
-                                              mate_contig=contig if paired else None, mate_pos=pos,
-                                              tags={'SM': sample, bintag: c} if rng.random() < 0.9 else {'SM': sample}))
-                if reads[-1].has_tag(bintag):    # a read without the bin tag has no coordinate and is outside the claim
-                    desc.append({'c': c, 'w': 1 if paired else 2, 'sample': sample + '|' + contig, 'reflen': reflen})
+                                              mate_contig=contig if paired else None, mate_pos=pos, tags=tags))
+                # a read without the bin tag has no coordinate; a read outside the selected contig is not iterated:
+                # both are outside the claim of C10 (C11 judges selection/filters)
+                if reads[-1].has_tag(bintag) and (only is None or contig == only):
+                    desc.append({'c': c, 'w': 1 if paired else 2, 'reflen': reflen,
+                                 'sample': sample + '|' + contig + ('|' + ft if extra else '')})
             bamgen.write_bam(path, header, reads)
             return desc
 
@@ -96,19 +102,22 @@ def main():
             sliding_arg = None if (s == b and rng.random() < 0.5) else s   # default: sliding = bin
             # history / configuration shapes: one BAM; several BAMs in one call whose headers differ;
             # the same args namespace re-used for a second call on a BAM with other contig lengths
-            shape = rng.choice(['one', 'one', 'two_files', 'reuse_args'])
+            shape = rng.choice(['one', 'one', 'two_files', 'reuse_args', 'extra_feature', 'contig_selected'])
             raised = ''
             path = os.path.join(tmp, 'b%d.bam' % k)
             path2 = os.path.join(tmp, 'b%d_2.bam' % k)
-            desc = make_bam(path, b, s, reflen, bintag, ['chrA', 'chrA', 'chrB'], rng.randint(1, 12))
+            extra = shape == 'extra_feature'
+            only = 'chrA' if shape == 'contig_selected' else None
+            desc = make_bam(path, b, s, reflen, bintag, ['chrA', 'chrA', 'chrB'], rng.randint(1, 12), extra=extra, only=only)
             paths = [path]
 
             def mk_args(files):
                 return SimpleNamespace(alignmentfiles=files, head=None, o=None, bin=b, binTag=bintag, sliding=sliding_arg,
-                                       bedfile=None, showtags=False, featureTags=None, joinedFeatureTags='reference_name',
+                                       bedfile=None, showtags=False, featureTags=None,
+                                       joinedFeatureTags='reference_name,ft' if extra else 'reference_name',
                                        byValue=None, sampleTags='SM', proper_pairs_only=False, no_indels=False,
                                        max_base_edits=None, no_softclips=False, minMQ=0, filterXA=False, dedup=False,
-                                       divideMultimapping=False, doNotDivideFragments=False, contig=None, blacklist=None,
+                                       divideMultimapping=False, doNotDivideFragments=False, contig=only, blacklist=None,
                                        r1only=False, r2only=False, filterMP=False, splitFeatures=False,
                                        feature_delimiter=',', noNames=False, keepOverBounds=keep)
             if shape == 'two_files':
@@ -137,7 +146,9 @@ def main():
                 for idx, v in df[col].items():
                     if v != v:  # NaN: cell absent
                         continue
-                    contig, start, end = idx
+                    contig, start, end = idx[0], idx[-2], idx[-1]
+                    if len(idx) == 4:
+                        contig = contig + '|' + idx[1]
                     w2 = v * 2
                     assert abs(w2 - round(w2)) < 1e-9, v
                     rows.append({'sample': colname + '|' + contig, 'start': int(start), 'end': int(end), 'w': int(round(w2))})
